@@ -62,6 +62,11 @@ CHECKS.update({
    "Id lists (single, descending, three, duplicates) x keep x reverse x page sizes; all 8 flag combinations via command line and environment, with and without an outside-grid feature; 5 target path shapes x fresh/overwrite/pre-existing+overwrite; a family of 172 (thorough 516) sources (every sequence of <= 2 polygon kinds x multipolygon kinds, line/point tables); exact file set, rows, attributes, geometries, other tables copied, nothing of an old file survives.",
    "Trusted: driver stub; reference uses snap.SnapPolygon of the same tree (C13 checks plumbing, not snapping).", "3/C13"),
 })
+CHECKS.update({
+ "C03": ("snapmc", "exhaustive enumeration of (accepted built-in set, id z, deepest id z' requested together, anchor, flags, probe polygon) through the real snap.SnapPolygon; every returned ordinate compared with the ideal pixel centre computed in exact rationals from the document; plus synthetic grids exercising tile width / corner / origin arithmetic",
+   "7 accepted sets x all (z, z') pairs x 9 anchors (min edge, middle, max edge per axis) x 4 flag combinations x probe shapes; tolerance = deviation reported by DeviationStats + 2e-10 + 1 ulp; synthetic grids with tile width 1/4/256, both corners of origin, non-zero origin, all 15 id subsets, exact equality.",
+   "Trusted: exact rational arithmetic on the documents' decimals, hand-checked axis order of the two northing-first sets. Float behaviour away from the 9 anchors per grid is outside.", "3/C03"),
+})
 PENDING = {}
 ALL = ["C01","C02","C03","C04","C18","C05","C06","C07","C08","C09","C10","C11","C12","C13","C14","C15","C16","C17"]
 
